@@ -22,7 +22,8 @@ def make_plan(seed: int, tier: str, opts: dict) -> dict:
         if ep["api"] == "gym" and mode < 0.35:
             ep["pass_own_result"] = True
         eps.append(ep)
-    return dict(spec=spec, seed=seed, episodes=eps, clock="sim", line_rate=r.choice([0.0, 0.0025, 0.01, 0.04]) if tier == "thorough" else r.choice([0.0, 0.0, 0.01]))
+    hot = r.choice([0.0, 0.0, 0.15, 0.4])  # pre-emption concentrated on lines touching shared lifecycle/queue fields
+    return dict(hot_rate=hot, spec=spec, seed=seed, episodes=eps, clock="sim", line_rate=r.choice([0.0, 0.0025, 0.01, 0.04]) if tier == "thorough" else r.choice([0.0, 0.0, 0.01]))
 
 
 def run_plan(plan: dict, replay=None) -> dict:
